@@ -8,7 +8,7 @@ from harness import common
 from harness.common import Coverage, Failure
 
 CORRESPONDENCES = [
-    'the per-rank sequence of data collectives (group members, kind, element count, root) of the unmodified KFACPreconditioner under '
+    'the per-rank sequence of data collectives (group members, kind, element count, dtype, root) of the unmodified KFACPreconditioner under '
     'simdist == extracted KfacComm.kfac_issues (the rank-dependent guards of step / load_state_dict / hooks, the bucket machine of C08, '
     'the control machine of C05) for every rank, configuration and history',
     'per-rank issue logs of the unmodified KFACPreconditioner (simdist) are accepted by the verified checker proj_ok_b '
@@ -28,7 +28,7 @@ TRUSTED = [
     'dtype equality of matching collectives is checked by simdist (not modelled: inst.idtype = 0)',
 ]
 THEOREMS = ['proj_ok_sound', 'members_issue_same_sequence', 'no_foreign_group', 'no_deadlock', 'every_execution_completes',
-            'kfac_comm_proj', 'kfac_never_stalls', 'neox_comm_proj', 'neox_never_stalls', 'queries_silent_at_step_boundary']
+            'kfac_comm_proj', 'kfac_never_stalls', 'neox_comm_proj', 'neox_never_stalls', 'queries_silent_at_step_boundary', 'generator_dtypes']
 NOTES = ('kfac_comm_proj proves, for every KAISA grid, method, layer table, bucket capacity and history, that the K-FAC programs are '
          'projections of one global order (hence never stall, kfac_never_stalls); the tie checks that the generator IS what the code issues. '
          'Constructor new_group calls and GPT-NeoX communication are covered per observed run by proj_ok_b (proj_ok_sound).')
